@@ -102,6 +102,10 @@ func newEventFromUntrustedJSONV3(eventJSON []byte, roomVersion IRoomVersion) (PD
 	if _, err = roomVersion.RedactEventJSON(eventJSON); err != nil {
 		return nil, err
 	}
+	// Sign() adds to the signatures that are already there.
+	if err = checkEventSignatures(eventJSON); err != nil {
+		return nil, err
+	}
 
 	if err = checkEventContentHash(eventJSON); err != nil {
 		res.redacted = true
